@@ -109,6 +109,45 @@ def sampleOnGridH : Reader String := do
     | _, some cv => gridSampleLinConst src.alignCorners srcN img cv c)
   pure (fmtRats out)
 
+/-- `none` | `grid` | `cube` | `cube_corners` | `world` -/
+private def axesOpt : Reader (Option Axes) := do
+  match (← tok) with
+  | "none" => pure none
+  | "grid" => pure (some .grid)
+  | "cube" => pure (some .cube)
+  | "cube_corners" => pure (some .cubeCorners)
+  | "world" => pure (some .world)
+  | t => throw s!"bad-op:axes:{t}"
+
+/-- `sample.module d <src> <tgt> axes lin|nearest zeros|border|const:c decimals values…` → all target
+    samples of `AlignImage` / `TransformImage` (identity transform). When the source compares equal to
+    the target (`Grid.__eq__`) the matrix comes from the same-grid branch of `Grid.transform`. `decimals` ≥ 0: the rounding
+    `Grid.points` applies to CUBE_CORNERS points (`apply_transform` default, 12); −1: none. -/
+private def sampleModuleH : Reader String := do
+  let d ← nat
+  let src ← grid d
+  let tgt ← grid d
+  let same := tgt.eqApprox src      -- `to_grid == self` with `self` = target
+  let axes := moduleAxes tgt (← axesOpt)
+  let mode ← tok
+  let (pad, cval) ← paddingC
+  let dec ← int
+  let srcN := gridSizeNat src
+  let tgtN := gridSizeNat tgt
+  let vals := (← listOf (numel srcN) rat).toArray
+  let img : (Fin d → Int) → Rat := fun idx => vals[flatIdx srcN idx]!
+  let ac := tgt.alignCorners
+  let out := (allIdx d tgtN).map (fun j =>
+    let p := (tgt.pointAt tgtN axes (fun i => ((j i : Int) : Rat))).memo
+    let p : Vec d Rat := if dec < 0 ∨ axes ≠ .cubeCorners then p else fun i => roundDecimals dec.toNat (p i)
+    let c := (if same then moduleMapPointSame tgt axes p else moduleMapPoint src tgt axes p).memo
+    match mode, cval with
+    | "nearest", none => gridSampleNearest ac pad srcN img c
+    | "nearest", some cv => gridSampleNearest ac .zeros srcN (fun idx => img idx - cv) c + cv
+    | _, none => gridSampleLin ac pad srcN img c
+    | _, some cv => gridSampleLinConst ac srcN img cv c)
+  pure (fmtRats out)
+
 /-- `itk.cindex d <src> <tgt> j…` → ITK continuous source index of target index j (the spec) -/
 def itkCIndex : Reader String := do
   let d ← nat
@@ -120,6 +159,7 @@ def itkCIndex : Reader String := do
 
 def sampleHandlers : List (String × Reader String) :=
   [ ("prim.grid_sample", primGridSample), ("prim.interpolate", primInterpolate),
-    ("sample.coord", sampleCoordH), ("sample.on_grid", sampleOnGridH), ("itk.cindex", itkCIndex) ]
+    ("sample.coord", sampleCoordH), ("sample.on_grid", sampleOnGridH),
+    ("sample.module", sampleModuleH), ("itk.cindex", itkCIndex) ]
 
 end Deepali.Drv
